@@ -97,26 +97,64 @@ Print Assumptions C22_valid_request_connects.
 (* 5. THE MONITOR (LLSpecC22.mstep22).  "The monitor accepts every trace of the model" is stated for all operation
    sequences and NOT proved in that generality: *)
 Definition C22_monitor_accepts_all_full : Prop := monitor22_accepts_all.
-(* PROVED for operation sequences of any length inside the environment [env22] - the quantifier of the property: any
-   connect requests (valid, invalid, not addressed to us), any pattern of connection events of the central without PDUs
-   (any event flags) and of missed events up to and beyond the supervision timeout, restarts of advertising, transmit
-   buffer operations, every configuration with an own sleep clock accuracy <= 500 ppm.  The environment is an executable
-   predicate computed along the model's run (op_ok22 on each operation, no model crash).  OUTSIDE: PDUs of the central
-   inside the events (control procedures: C21 / C27 / C28; in particular connection updates, whose window arithmetic the
-   monitor checks on every run but which is not covered by this proof), the API calls (disconnect, connection parameter
-   update, PHY update).  The proof is a simulation: LLProofsC22Sim.Sim22 couples the monitor's parameters, anchor time and
-   counter of missed events with the model's state; sim22_step is the step lemma. *)
+(* PROVED for operation sequences of any length inside the environment [env22] - the quantifier of the property and more:
+   any connect requests (valid, invalid, not addressed to us), any pattern of connection events of the central (any event
+   flags) and of missed events up to and beyond the supervision timeout, restarts of advertising, transmit buffer
+   operations, every configuration with an own sleep clock accuracy <= 500 ppm; the events may be empty (every
+   configuration) or - for a link layer without encryption support - carry any number of CONTROL PDUs THAT DO NOT TOUCH
+   THE TIMING: LLID 3, not empty, at most 27 bytes, no instant (not a well formed LL_CONNECTION_UPDATE_IND /
+   LL_CHANNEL_MAP_IND / LL_PHY_UPDATE_IND) and not LL_TERMINATE_IND - i.e. feature / version / ping / length /
+   connection parameter requests, LL_UNKNOWN_RSP / LL_REJECT(_EXT)_IND, unknown opcodes, malformed PDUs of any opcode
+   (executable: pdu_ok22).  The environment is an executable predicate computed along the model's run: op_ok22 on each
+   operation, no model crash, and calm22 = nothing is left in the receive queue after the operation (a control PDU stays
+   there while the script withholds the transmit buffer: such steps are outside).
+   OUTSIDE, exactly: (1) PDUs with an instant - LL_CONNECTION_UPDATE_IND (the monitor's applied_update / PBlind arithmetic
+   is tested on every run, not proved), LL_CHANNEL_MAP_IND, LL_PHY_UPDATE_IND; (2) LL_TERMINATE_IND; (3) data PDUs (LLID 1 / 2)
+   and PDUs inside events of a link layer with encryption support; (4) events that leave a PDU in the receive queue;
+   (5) the API calls (disconnect, connection parameter update / request, PHY update, version request, cancelation).
+   The proof is a simulation: LLProofsC22Sim.Sim22 couples the monitor's parameters, anchor time and counter of missed
+   events with the model's state; sim22_step is the step lemma; neutral_event is the event with such PDUs (it reuses
+   ll-c21's LLSimC21.radio_event_spec, hlc_other / ctlk / ctlq and this file's hrd_neutral, tail22). *)
 Theorem C22_monitor_accepts_partial :
   forall c ops, cfg_ok22 c = true -> env22 c (linit c) ops = true -> accepts22 c (trace_of c ops).
 Proof. exact monitor22_accepts_partial. Qed.
 Print Assumptions C22_monitor_accepts_partial.
 Theorem C22_simulation_step :
   forall c s p o s' r,
-    cfg_ok22 c = true -> Sim22 s p -> op_ok22 o = true -> lstep c s o = (s', r) -> r <> OCrash ->
+    cfg_ok22 c = true -> Sim22 s p -> op_ok22 c o = true -> lstep c s o = (s', r) -> r <> OCrash -> calm22 s' = true ->
     exists p', mstep22 c p o r = (Ok, p') /\ Sim22 s' p'.
 Proof. exact sim22_step. Qed.
+(* The two model lemmas behind events with PDUs: without encryption support, a receive
+   queue of control PDUs that carry no instant and are not LL_TERMINATE_IND (feature / version / ping / unknown / reject /
+   connection parameter request / malformed PDUs; [nq]) is worked off with result "go ahead", emits nothing the monitor
+   reads, and leaves state, connection state (anchor, counter), timing parameters, channel map, combined accuracy untouched
+   ([ctlq], [fr22]: a procedure timer / pending request that is off stays off); and from such a state end_event_continue()
+   schedules the next event k intervals after the anchor, 1 <= k <= latency + 1, symmetric and covering - as after an
+   event without PDUs. *)
+Theorem C22_pdus_without_instant_leave_the_timing :
+  forall c, c_enc c = false -> forall fuel s,
+    forallb (nq c) (rxq (bf s)) = true -> deferred s = None ->
+    let r := handle_received_data fuel c s in
+    snd r = GoAhead /\ LLSimC21.quiet_items (snd (fst r)) /\ fr22 s (fst (fst r)) /\ LLSimC21.ctlq 0 s (fst (fst r))
+    /\ deferred (fst (fst r)) = None
+    /\ (tx_avail (bf s) = true -> (length (rxq (bf s)) < fuel)%nat -> rxq (bf (fst (fst r))) = []).
+Proof. exact hrd_neutral. Qed.
+Print Assumptions C22_pdus_without_instant_leave_the_timing.
+Theorem C22_next_event_after_processing :
+  forall c s3 e s8 it8,
+    tw_size (tm s3) = 0 -> timing_inv (tm s3) (sca s3) -> proc_timeout s3 = 0 -> enc_prog (sc s3) = false -> deferred s3 = None ->
+    end_event_continue c s3 e = Some (s8, it8) ->
+    exists k kk ch ws we,
+      it8 = [ICe ch ws we (interval (tm s3))] /\ s8 = set_pending_event (set_cs s3 kk) true
+      /\ 1 <= k /\ k <= latency (tm s3) + 1 /\ tsle kk = k * interval (tm s3) /\ ws + we = 2 * tsle kk
+      /\ covers (sca s3) ws we (tsle kk) (tsle kk) = true.
+Proof. exact tail22. Qed.
+
 (* the environment is satisfiable: the session below (connect request, events, 6 missed events up to the supervision
    timeout) is inside it *)
+Example C22_environment_with_pdus_is_satisfiable :
+  c_enc cfg_base = false /\ env22 cfg_base (linit cfg_base) session22_pdus = true.
+Proof. exact session22_pdus_env. Qed.
 Example C22_environment_is_satisfiable :
   cfg_ok22 cfg_base = true /\ env22 cfg_base (linit cfg_base) session22_ok = true.
 Proof. split; vm_compute; reflexivity. Qed.
